@@ -8,13 +8,13 @@ EXPLANATION = ("Bounded model checking with fault injection: for every corpus cl
                "k-th call (k value-forked over every call index), deserialize runs over all byte strings of length n with both entry modes and a reader that raises at its k-th call. "
                "On every path - returning, SerializationError, ValueError, injected fault - z3 decides mode-after == mode-before.")
 BOUNDS = {"quick": "every class of corpus/core plus a VERIF_SEED-chosen sample of 70 structs of the generated pair corpus; serialize: strings 0/1, arrays 0/1, every violation site, fault at call k for every k up to min(12, static bound on the number of calls + 1); deserialize: every byte string of length 0..3, fault at every call k up to min(8, static bound + 1), decoded counts up to 6",
-          "thorough": "core corpus (per class the richest lens/counts configuration up to 2 whose structure count stays <= 60) plus ALL structs of the generated pair corpus; k up to 24; deserialize lengths 0..5, k up to 16"}
+          "thorough": "core corpus (per class the richest lens/counts configuration up to 2 whose structure count stays <= 60) plus a VERIF_SEED-chosen sample of 1000 structs of the generated pair corpus (1500 + all singles for the nesting clause); k up to 24; deserialize lengths 0..5, k up to 16"}
 OUTSIDE = "specifications not in the corpus (the nesting clause is checked as wire/reading equality with O-xml on every corpus class that nests a structure); faults other than an exception raised by a reader/writer method"
 ASSUMPTIONS = ["faults are exceptions raised by public add_*/get_*/next_chunk methods of a reader/writer subclass"]
 
 
 def trees(tier):
-    return [("core", corpus.CORE), ("pairs", corpus.pairs(tier, corpus.seed(), 70, False)[0]), ("pairs2", corpus.pairs(tier, corpus.seed())[0])]
+    return [("core", corpus.CORE), ("pairs", corpus.pairs(tier, corpus.seed(), 70 if tier == "quick" else 1000, False)[0]), ("pairs2", corpus.pairs(tier, corpus.seed(), 160 if tier == "quick" else 1500)[0])]
 
 
 def programs(tier):
@@ -45,7 +45,7 @@ def jobs(tier):
             if i[0] == "switch" and any(nests(c[3]) for c in i[2]):
                 return True
         return False
-    _, atypes, acls = corpus.pairs(tier, corpus.seed())          # the nesting clause uses the larger pair sample
+    _, atypes, acls = corpus.pairs(tier, corpus.seed(), 160 if tier == "quick" else 1500)          # the nesting clause uses a larger pair sample
     for src, tname, tt, cc in [("", "core", types, cls), ("pairs:", "pairs2", atypes, acls)]:
         for c in cc:
             if not nests(c["instrs"]):
@@ -56,7 +56,7 @@ def jobs(tier):
             for n in ((2, 3) if q else (1, 2, 3, 4)):
                 js.append(dict(name=f"nested_read[{src}{c['name']},n={n}]", fn="nested_read", args=[t, c, n, 6], tree=tname, collect_models=1,
                                expect=["reader mode restored"]))
-    _, ptypes, pcls = corpus.pairs(tier, corpus.seed(), 70, False)
+    _, ptypes, pcls = corpus.pairs(tier, corpus.seed(), 70 if tier == "quick" else 1000, False)
     pcfg = {"lens": [0, 1], "counts": [0, 1]}
     for c in pcls:
         t = corpus.closure(ptypes, c["instrs"])
